@@ -67,6 +67,7 @@ theorem wr_facts (c : MergeCtx G E sm gs uf0 u v)
       (sm.mergeStep2 uf0 u v).sgLen g = some (winGroup sm (sm.mergeStep2 uf0 u v) u (u :: ru) (v :: rv) g).length ∧
       (∀ y ∈ winGroup sm (sm.mergeStep2 uf0 u v) u (u :: ru) (v :: rv) g, y < sm.n ∧ rep1 sm u v y = g) ∧
       (winGroup sm (sm.mergeStep2 uf0 u v) u (u :: ru) (v :: rv) g).Pairwise (NoBack G) ∧
+      (winGroup sm (sm.mergeStep2 uf0 u v) u (u :: ru) (v :: rv) g).Nodup ∧
       (∀ y ∈ winGroup sm (sm.mergeStep2 uf0 u v) u (u :: ru) (v :: rv) g,
         y ∈ (u :: ru) ++ (M.flatten ++ (v :: rv))) ∧
       (g ≠ u → winGroup sm (sm.mergeStep2 uf0 u v) u (u :: ru) (v :: rv) g ∈ M) := by
@@ -75,10 +76,13 @@ theorem wr_facts (c : MergeCtx G E sm gs uf0 u v)
   have hgv_mem : (v :: rv) ∈ gs := by rw [hgs]; simp
   have hpw := hinv.topo
   rw [hinv.order_eq, List.pairwise_flatten] at hpw
+  have hnd := hinv.nodup
+  rw [hinv.order_eq] at hnd
+  have hndg : ∀ l ∈ gs, l.Nodup := (List.pairwise_flatten.1 hnd).1
   rcases hg with hgu | ⟨mg, hmg, hhead⟩
   · subst hgu
     have hr1 : rep1 sm g v g = g := by unfold rep1; simp [c.hru, c.huv]
-    refine ⟨c.hu, hr1, c.huv, ?_, ru ++ (v :: rv), ?_, ?_, ?_, ?_, ?_, ?_⟩
+    refine ⟨c.hu, hr1, c.huv, ?_, ru ++ (v :: rv), ?_, ?_, ?_, ?_, ?_, ?_, ?_⟩
     · rw [s2_getIdx_of_ne c.huv]
       simp only [getN, w.idx_u, Option.getD_some, inWin, Bool.and_eq_true, decide_eq_true_eq,
         List.length_cons]
@@ -100,6 +104,14 @@ theorem wr_facts (c : MergeCtx G E sm gs uf0 u v)
     · simp only [winGroup, if_true]
       rw [List.pairwise_append]
       exact ⟨hpw.1 _ hgu_mem, hpw.1 _ hgv_mem, w.cross_uv⟩
+    · simp only [winGroup, if_true]
+      rw [List.nodup_append]
+      refine ⟨hndg _ hgu_mem, hndg _ hgv_mem, ?_⟩
+      intro a ha b hb hab
+      subst hab
+      have h1 := w.rep_u a ha
+      have h2 := w.rep_v a hb
+      exact c.huv (h1.symm.trans h2)
     · intro y hy
       simp only [winGroup, if_true] at hy
       rcases List.mem_append.1 hy with h | h
@@ -118,7 +130,7 @@ theorem wr_facts (c : MergeCtx G E sm gs uf0 u v)
       exact hslice
     have hr1 : rep1 sm u v h = h := by unfold rep1; simp [hhr, hv']
     rw [hwg]
-    refine ⟨hhn, hr1, hv', ?_, rest, hmg', ?_, ?_, hpw.1 _ hmg_mem, ?_, fun _ => hmg⟩
+    refine ⟨hhn, hr1, hv', ?_, rest, hmg', ?_, ?_, hpw.1 _ hmg_mem, hndg _ hmg_mem, ?_, fun _ => hmg⟩
     · rw [s2_getIdx_of_ne hv']
       have hpos : 0 < mg.length := by rw [hmg']; simp
       simp only [getN, hi, Option.getD_some, inWin, Bool.and_eq_true, decide_eq_true_eq]
